@@ -87,7 +87,13 @@ func setCase(names, contents []string) (msg string, class string) {
 		if !ok {
 			return nil, fmt.Errorf("open of unlisted name %q", n)
 		}
-		return io.NopCloser(iotest1(c)), nil
+		// how the content is delivered depends on the set and the file (all legal reader behaviours: one byte
+		// per Read, half reads, three bytes, last bytes together with io.EOF, empty reads in between, whole)
+		shape := (len(names)*7 + len(n)*3 + len(c) + opened[n]) % (memfile.Shapes + 1)
+		if shape == memfile.Shapes {
+			return io.NopCloser(iotest1(c)), nil
+		}
+		return memfile.File{P: n, Data: []byte(c), Declared: -1, Shape: shape}.Open()
 	})
 	for i := range list {
 		if list[i] != names[i] {
